@@ -264,3 +264,8 @@ def run(ctx):
     rule_every_region_pushed(ctx)
     rule_ip_window(ctx)
     rule_list_after_producers(ctx)
+    # byte-for-byte: every region's bytes come through MemReader — the reader rules of C17 are necessary conditions of C07 too
+    # (same rule instances: argument wiring of the three strategies, PEEKDATA word/tail windows, length = bytes actually read)
+    from rules import c17
+    c17.rule_args(ctx, R="C07/reader-args")
+    c17.rule_prefix_only(ctx, R="C07/reader-prefix-only")
